@@ -8,8 +8,34 @@ SET, CUR, END = 0, 1, 2
 def seek_table(prog):
     E = prog.enums
     R, W, RW = E['SFM_READ'], E['SFM_WRITE'], E['SFM_RDWR']
-    pe = PEval(prog, sticky=('file.mode', '->error'), effects=Effects(prog), max_depth=1)
+    pe = PEval(prog, sticky=('file.mode', '->error'), effects=Effects(prog), max_depth=2)
     f = prog.fn('sf_seek', 'sndfile.c')
+    # sf_seek together with the static helpers of sndfile.c it calls: a part of it that was moved into a helper still is sf_seek
+    grp = {'sf_seek'} | {g_.name for c_ in f.calls() for g_ in prog.fns.get(c_.get('callee') or '', []) if g_.static and g_.file == f.file}
+    # the variable that takes the position the codec seek reports, and the chain of returns that hands it to the caller of sf_seek
+    sites = dispatch_sites(prog, f)
+    resvar = None
+    if sites:
+        gd, cd, _ = sites[-1]
+        par = gd.N[gd.parent[cd['id']]]
+        while par['k'] in ('ImplicitCastExpr', 'ParenExpr', 'CStyleCastExpr'):
+            par = gd.N[gd.parent[par['id']]]
+        if par['k'] == 'BinaryOperator' and par.get('op') == '=':
+            resvar = gd.s(par['kids'][0])
+        elif par['k'] == 'VarDecl':
+            resvar = par.get('n')
+
+    tgt0 = f.unwrap(sites[0][2]) if sites else {}
+    tname = tgt0.get('n') if tgt0.get('k') == 'DeclRefExpr' else 'seek_from_start'
+    seek_table.roles = {'sites': sites, 'resvar': resvar, 'target': tname}
+
+    def ret_dispatch(r):
+        if not sites or resvar is None:
+            return False
+        gd = sites[-1][0]
+        if resvar not in [x[1] for x in r.ret_exprs if x[0] == gd.name]:
+            return False
+        return gd is f or any(x[0] == 'sf_seek' and x[1].startswith(gd.name + '(') for x in r.ret_exprs)
     rows = {}
     for base, bn in ((SET, 'SEEK_SET'), (CUR, 'SEEK_CUR'), (END, 'SEEK_END'), (3, '3')):
         for mod, mn in ((0, ''), (R, '|SFM_READ'), (W, '|SFM_WRITE'), (RW, '|SFM_RDWR')):
@@ -21,11 +47,12 @@ def seek_table(prog):
                     r = pe.explore(f, env)
                     rows[(bn + mn, modename, off)] = {
                         'rets': sorted(x[1] for x in r.ret_exprs if x[0] == 'sf_seek'),
-                        'target': sorted(x[2] for x in r.local_assigns if x[0] == 'sf_seek' and x[1] == 'seek_from_start'),
+                        'target': sorted(x[2] for x in r.local_assigns if x[0] == 'sf_seek' and x[1] == tname),
                         'writes': sorted(x[1] for x in r.root_writes if x[0] == 'sf_private_tag' and x[1] in ('read_current', 'write_current')),
-                        'last_op': sorted(x[2] for x in r.store_exprs if x[0] == 'sf_seek' and x[1] == 'psf->last_op'),
-                        'errors': sorted(x[2] for x in r.store_exprs if x[0] == 'sf_seek' and x[1] == 'psf->error' and x[2] != '0'),
+                        'last_op': sorted(x[2] for x in r.store_exprs if x[0] in grp and x[1] == 'psf->last_op'),
+                        'errors': sorted(x[2] for x in r.store_exprs if x[0] in grp and x[1] == 'psf->error' and x[2] != '0'),
                         'seek_called': '@slot:sf_private_tag.seek' in r.calls,
+                        'ret_dispatch': ret_dispatch(r),
                     }
     return f, rows
 
@@ -50,3 +77,82 @@ def oracle(whence, mode, off):
         tgt = '(psf->%s + offset)' % ptr
     writes = {'SFM_READ': ['read_current'], 'SFM_WRITE': ['write_current'], 'SFM_RDWR': ['read_current', 'write_current']}[eff]
     return {'target': tgt, 'writes': writes}
+
+
+def dispatch_sites(prog, f):
+    """Where sf_seek hands over to the codec: [(function, call node, node of the frame-position argument)], outermost first.  The indirect call through the
+    `seek` slot may sit in sf_seek itself or in a static helper of the same file that sf_seek calls (a part of sf_seek that was moved still is sf_seek);
+    in the second case the first site is the call of the helper, with the argument that arrives at the position parameter."""
+    def slot_call(g):
+        for c in g.calls():
+            s_ = prog.indirect_callee_slot(g, c)
+            if s_ and s_[1] == 'seek':
+                return c
+        return None
+    c = slot_call(f)
+    if c is not None:
+        a = f.args(c)
+        return [(f, c, a[2])] if len(a) >= 3 else []
+    for hc in f.calls():
+        for g in prog.fns.get(hc.get('callee') or '', []):
+            if not (g.static and g.file == f.file):
+                continue
+            c = slot_call(g)
+            if c is None or len(g.args(c)) < 3:
+                continue
+            tgt = g.unwrap(g.args(c)[2])
+            pos = [i for i, p in enumerate(g.params) if tgt.get('k') == 'DeclRefExpr' and p['n'] == tgt.get('n')]
+            if not pos or pos[0] >= len(f.args(hc)):
+                continue
+            return [(f, hc, f.args(hc)[pos[0]]), (g, c, g.args(c)[2])]
+    return []
+
+
+def lenient_path(prog, g, call, tgt):
+    """A path from the entry of g to `call` on which neither `tgt > psf->sf.frames` was found false nor the open mode of the handle (psf->file.mode)
+    was found to be a writing one: returns the witness (list of blocks) or None.  Read off the CFG, so `a || (b && c)`, nested ifs and else-chains
+    are all the same thing."""
+    E = prog.enums
+    R = E['SFM_READ']
+    cfg = g.cfg
+    ts = g.s(g.unwrap(tgt))
+
+    def node(x):
+        return g.N[x] if isinstance(x, int) else x
+
+    def good(b, si):
+        blk = cfg.blocks[b]
+        if 'cond' not in blk or len(blk['succs']) != 2 or blk.get('tk') == 'SwitchStmt':
+            return False
+        cn = g.unwrap(node(blk['cond']))
+        if cn.get('op') in ('&&', '||') and blk['elems']:
+            cn = g.unwrap(node(blk['elems'][-1]))
+        pol = (si == 0)
+        while cn.get('k') == 'UnaryOperator' and cn.get('op') == '!':
+            cn = g.unwrap(node(cn['kids'][0]))
+            pol = not pol
+        if cn.get('k') != 'BinaryOperator':
+            return False
+        l_, r_ = g.unwrap(node(cn['kids'][0])), g.unwrap(node(cn['kids'][1]))
+        ls, rs, op = g.s(l_), g.s(r_), cn.get('op')
+        if op in ('<', '<=', '>', '>='):
+            if rs == ts and ls == 'psf->sf.frames':
+                ls, rs, op = rs, ls, {'<': '>', '<=': '>=', '>': '<', '>=': '<='}[op]
+            if ls == ts and rs == 'psf->sf.frames':
+                # the edge on which the target is known not to lie beyond the last frame
+                return (op in ('>', '>=') and not pol) or (op in ('<', '<=') and pol)
+            return False
+        if op in ('==', '!='):
+            if rs == 'psf->file.mode':
+                l_, r_, ls, rs = r_, l_, rs, ls
+            if ls == 'psf->file.mode' and r_.get('v') is not None:
+                eq = (op == '==') == pol            # on this edge: mode == v (eq) or mode != v
+                return (eq and r_['v'] != R) or (not eq and r_['v'] == R)
+        return False
+
+    pt = cfg.point(call)
+    if pt is None:
+        return None
+    if pt[0] == cfg.entry:
+        return [cfg.entry]
+    return cfg.path_avoiding((cfg.entry, -1), {pt[0]}, set(), start_inclusive=True, edge_ok=lambda b, si: not good(b, si))
